@@ -167,6 +167,15 @@ def triage(R):
                                        replayed_on_real_code=True), f, indent=1, default=str)
                     R.violations.append(dict(key=base, replay=path, replayed=True, what='undecided obligation + concrete failing input'))
                 continue
+            kk0 = o.name.split('#case-')[0]
+            if kk0 not in kmap and kk0.endswith('@avr') and kk0[:-4] in kmap:
+                kk0 = kk0[:-4]
+            if kk0 in kmap:
+                # a listed known finding whose counterexample the solvers did not re-derive within this run's budget: still a
+                # known finding (it suppresses nothing else), not an undecided obligation of the unchanged property
+                if not any(k is kmap[kk0] for k, _ in R.known_hits):
+                    R.known_hits.append((kmap[kk0], dict(obligation=o.name, solver_output='unknown', note='not re-derived in this run (solver budget exhausted)')))
+                continue
             R.undecided.append((o.name, 'solver returned unknown on every back end (%.0fs)' % o.time))
             continue
         # sat
